@@ -12,7 +12,7 @@ from collections import defaultdict
 
 from .bdd import BDD
 from .cfg import cfg_of
-from .expr import (DUAL_OF, VARIANTS, fna_of, is_float_ty, is_int_ty, mk_bin, mk_not, show, subst, walk)
+from .expr import (DUAL_OF, VARIANTS, try_branch_subject, fna_of, is_float_ty, is_int_ty, mk_bin, mk_not, show, subst, walk)
 
 LOG_MACRO_CRATES = ("tracing", "log", "tracing_core")
 
@@ -114,6 +114,12 @@ class FormulaSpace:
 
     def is_atom(self, e):
         """Formula for `subject is variant`; the second variant of a two-variant enum is the negation of the first."""
+        if e[2] in ("Continue", "Break"):
+            t = try_branch_subject(e[1])
+            if t is not None:
+                # `x?`: branch(x) is Continue exactly when x is Some / Ok
+                f = self.is_atom(("is", t[0], t[1]))
+                return f if e[2] == "Continue" else self.bdd.NOT(f)
         first = DUAL_OF.get(e[2])
         if first is not None:
             return self.bdd.NOT(self.atom(("is", e[1], first)))
